@@ -9,7 +9,11 @@ Families of cases
            non-manifold edges, duplicated triangles), all-true / partial / orphan-leaving masks
   geom     tri_areas, edge_lengths, tri_normals, vertex_normals before and after rational rotations,
            translations, uniform scales applied with menpo's own transforms
-  bound    boundary_tri_index and unique_edge_indices on open, closed and non-manifold meshes
+  bound    boundary_tri_index and unique_edge_indices on open, closed and non-manifold meshes; edge sums by multiplicity
+  scale    well-shaped unit meshes x 2^-30 .. 2^-10 and x 2^10 .. 2^20 (exactly representable) in float64 AND float32:
+           unit normals at every scale, normals independent of the scale, areas x s^2, edge lengths x s
+  writes   (regenerated table, GenProps/C17.lean) the instance attributes written by every public query of the three
+           classes on live meshes: obligation = nothing but the lazily created landmark manager
 """
 import json
 import math
@@ -21,43 +25,70 @@ from . import common
 PROP = "C17"
 INFO = dict(
     technique="Lean 4 proof (index lemmas for masking/renumbering by induction over lists; polynomial identities over Q for "
-              "areas, edge lengths and normals; characterisation of the boundary toggle dictionary by induction) "
+              "areas, edge lengths and normals of whole meshes under rigid motion and uniform scaling, lifted to R with "
+              "Real.sqrt; the np.add.at scatter-add of vertex normals modelled pass by pass over any commutative monoid of rows "
+              "and proved equal to the sum of incident normals; sums over edge slots by multiplicity; histories of queries, "
+              "masks and copies by induction over the call sequence; characterisation of the boundary toggle dictionary) "
+              "+ regenerated tables (attribute writes of every public query, method suppliers, names referred to by every "
+              "transcribed body) with decide obligations "
               "+ model/implementation correspondence and an exact-rational property oracle on the real mesh classes",
     level_text="Theorems over an executable model of mask_adjacency_array, reindex_adjacency_array, _isolated_mask, "
-               "from_mask (plain/coloured/textured), from_tri_mask, tri_areas, edge_vectors/lengths, compute_face_normals, "
-               "compute_vertex_normals, boundary_tri_index (original toggle loop and repaired count) and "
-               "unique_edge_indices: for every well-formed mesh and every mask keeping a triangle the result holds exactly "
-               "the whole triangles, renumbered so that each joins the same rows of points/colours/tcoords, with no orphan "
-               "vertex; areas/edge lengths are >= 0, invariant under A^T A = 1 plus translation and scale by s^2 / |s|; "
-               "face normals are perpendicular, follow rotations and are unit under the sqrt contract; the repaired "
-               "boundary index equals 'owns an edge of multiplicity 1' on every mesh, the original code only on "
-               "manifold meshes with a boundary (refuted by witnesses otherwise); unique edges are duplicate-free.  "
-               "The model is tied to /repo by running the real classes on generated meshes/masks/motions and diffing "
-               "triangle lists, per-vertex arrays, areas, edge lengths, normals, boundary index and edge sets against "
-               "the Lean driver; the oracle decides the property on the real objects.",
+               "from_mask (plain/coloured/textured), from_tri_mask, subsampled_grid_triangulation, tri_areas, mean_tri_area, "
+               "edge_vectors/lengths, unique_edge_indices/lengths, mean_edge_length, _normalize (with its nan_to_num branch), "
+               "compute_face_normals, compute_vertex_normals (zeros + three np.add.at + _normalize), as_pointgraph edges, "
+               "boundary_tri_index (the counting code now in /repo, and the original toggle loop): for every well-formed mesh "
+               "and every mask keeping a triangle the result holds exactly the whole triangles, renumbered by a monotone "
+               "injective map so that each joins the same rows of points/colours/tcoords, with no orphan vertex, and its edge "
+               "slots, unique edges, point-graph edges and boundary flags are those of the kept triangles; whole-mesh areas / "
+               "edge lengths are >= 0, invariant under A^T A = 1 plus translation and scale by s^2 / |s| for every s - for the "
+               "squares in Q and for the returned values in R (Real.sqrt, no contract parameter); face normals are unit, "
+               "perpendicular, follow rotations and do not depend on the uniform scale of the mesh, at EVERY scale, in R, and in "
+               "Q for every root satisfying the sqrt contract (the two forms are proved to coincide: normalize1_cast); vertex "
+               "normals are, entry by entry, _normalize of the sum of the unit normals of the incident faces (unit when that sum "
+               "is not zero, the zero row at a vertex without a face), independent of the triangle order, rotated with the mesh, "
+               "scale invariant, equal to the plane normal on flat meshes - for the coded three-pass scatter-add over Q and "
+               "over R; boundary_tri_index equals 'owns an edge of multiplicity 1' on every mesh (all-false exactly when no "
+               "such edge exists, e.g. closed meshes); the 3*n_tris edge_lengths slots are the unique_edge_lengths counted with "
+               "multiplicity (sums; equal means under uniform multiplicity); unique edges are duplicate-free; grid "
+               "triangulations are well formed; any history of geometry queries, masks, triangle masks and copies over mesh "
+               "objects answers each query from the arrays of the object asked and never changes an existing object "
+               "(history_pure; refuted as soon as one query memoises on the instance: history_memo_refuted); no public query "
+               "writes instance state (regenerated table).  The model is tied to /repo by running the real classes on generated "
+               "meshes/masks/motions/scales/histories (2^-30 .. 2^20, float64 and float32, six index dtypes, C and Fortran "
+               "order) and diffing triangle lists, per-vertex arrays, point-graph edges, areas, edge lengths, means, normals, "
+               "vertex-normal sums, boundary index, edge sets and whole observation traces against the Lean driver, and by the "
+               "regenerated tables; the oracle decides the property on the real objects.",
     level_note="Trusted: Lean kernel; axioms propext/Classical.choice/Quot.sound; the Python harness and the driver's "
                "parser; numpy fancy indexing / np.isin / np.unique / np.add.at semantics (modelled, exercised by the "
-               "correspondence); sqrt and division (contract: r >= 0, r*r = v.v — checked numerically on every case); "
-               "float rounding (model is exact; inputs are small dyadic rationals so masking is bit exact and geometry "
-               "agrees to 1e-9 relative).",
-    rule="one case = one (mesh, mask) / (mesh, motion) / (triangle list); distinct = distinct (class, points, trilist, "
-         "mask or motion); non-trivial = mask removes at least one triangle or vertex / motion is not the identity / "
-         "mesh has >= 2 triangles",
-    partial=["sqrt, division and float rounding are contracts: 3-D areas, edge lengths and unit normals are proved for the "
-             "squared / un-normalised model quantities and lifted to the non-negative roots by root_unique / "
-             "normalize_unit; vertex normals: unit length proved under the same contract, the scatter-add itself is "
-             "tied by correspondence only",
-             "boundary_tri_index: the theorem for all meshes (boundary_fixed_eq_spec) is about the repaired counting "
-             "code of notes/fixes/C17-boundary-count.diff; for the original toggle loop only the manifold-with-boundary "
-             "case is a theorem, closed / odd-multiplicity meshes are refuted (boundary_coded_raises_iff, witnesses)"],
+               "correspondence); float rounding (the model is exact: Q for what the driver executes, R for the returned values; "
+               "inputs are small dyadic rationals so masking is bit exact and geometry agrees to 1e-9 relative in float64, "
+               "1e-4 in float32); the write table is measured on live objects (common.attr_writes) and the mechanism table "
+               "reads code objects (co_names): neither is derived from the source text.",
+    rule="one case = one (mesh, mask) / (mesh, motion) / (triangle list) / (mesh, scale 2^k, storage dtype) / (mesh, history of "
+         "queries, copies and masks); distinct = distinct (class, points, trilist, mask or motion or scale and dtype or history "
+         "seed); non-trivial = mask removes at least one triangle or vertex / motion is not the identity / mesh has >= 2 "
+         "triangles / scale is not 1 / history has >= 2 maskings",
+    partial=["float rounding is outside the model: theorems are exact (Q, R); the code's float64 / float32 answers are compared "
+             "with the exact ones to 1e-9 / 1e-4 relative on dyadic inputs, they are not proved to be close",
+             "landmarks and the texture image carried through masking as owned copies, and no array of the result being a "
+             "view of the receiver: observed by the correspondence on every masking case (reported as a broken tie), not modelled "
+             "in Lean; the frame condition of queries_pure / history_pure for the real classes is the regenerated table "
+             "(queryWrites_ok), measured on live objects rather than proved from the source"],
     assumptions=["triangle lists index valid vertices and each triangle has three distinct vertex indices",
                  "an all-true mask returns the mesh unchanged (vertices that had no triangle before masking are not "
                  "'left' without one by it); a mask keeping no whole triangle is outside the property's quantifier "
                  "(the code raises ValueError; checked as error-kind correspondence only)",
                  "normals: triangles of non-zero area; vertex normals: vertices whose incident unit normals do not cancel",
-                 "rigid motions are menpo Rotation (rational matrices, det +1) and Translation; scales are positive"],
-    design_ref="DESIGN.md section 6, C17; section 7 items 17-19")
-IMPORTS = ["MenpoModel.Props.C17"]
+                 "rigid motions are menpo Rotation (rational matrices, det +1) and Translation; scales are positive; the scale "
+                 "family uses well-shaped meshes (|cross| >= 1/2 and > |e1||e2|/4 at unit scale) whose scaled coordinates are "
+                 "exactly representable in the storage dtype",
+                 "queries may lazily create the (empty) landmark manager `_landmarks`; nothing else is written"],
+    design_ref="DESIGN.md section 6, C17; section 7 items 17-19; section 14.2 (seeded C17-1..3)")
+IMPORTS = ["MenpoModel.Props.C17", "MenpoModel.Props.C17Real"]
+GEN_IMPORTS = ["MenpoModel.GenProps.C17"]
+TARGETS = ["MenpoModel.Props.C17", "MenpoModel.Props.C17Real", "MenpoModel.Drive.C17"]
+GEN_THEOREMS = ["MenpoModel.GenProps.C17.queryWrites_ok", "MenpoModel.GenProps.C17.geometry_never_written",
+                "MenpoModel.GenProps.C17.suppliers_ok", "MenpoModel.GenProps.C17.mechanism_ok"]
 THEOREMS = [
     "MenpoModel.C17.mask_keeps_whole_triangles",
     "MenpoModel.C17.renumber_consistent",
@@ -94,6 +125,59 @@ THEOREMS = [
     "MenpoModel.C17.boundary_coded_refuted_closed",
     "MenpoModel.C17.boundary_coded_refuted_nonmanifold",
     "MenpoModel.C17.unique_edges_once",
+    # whole-mesh queries under uniform scaling and rigid motion
+    "MenpoModel.C17.mesh_areas2_scale",
+    "MenpoModel.C17.mesh_areasSq3_scale",
+    "MenpoModel.C17.mesh_edgeSq2_scale",
+    "MenpoModel.C17.mesh_edgeSq3_scale",
+    "MenpoModel.C17.mesh_areasSq3_rigid",
+    "MenpoModel.C17.mesh_areas2_rigid",
+    "MenpoModel.C17.face_normals_unit",
+    "MenpoModel.C17.face_normals_scale_invariant",
+    "MenpoModel.C17.vertex_normals_scale_invariant",
+    "MenpoModel.C17.nondegenerate_scale",
+    # vertex normals: the scatter-add
+    "MenpoModel.C17.vertex_sums_coded_eq_spec",
+    "MenpoModel.C17.incident_sum_distinct",
+    "MenpoModel.C17.vertex_normal_is_normalised_incident_sum",
+    "MenpoModel.C17.vertex_sums_order_independent",
+    "MenpoModel.C17.vertex_normals_follow_rotation",
+    "MenpoModel.C17.flat_mesh_normals",
+    # edges with multiplicity, means, closed meshes
+    "MenpoModel.C17.edge_length_symmetric",
+    "MenpoModel.C17.edge_sum_by_multiplicity",
+    "MenpoModel.C17.mean_edge_uniform_multiplicity",
+    "MenpoModel.C17.mesh_edge_lengths_by_multiplicity",
+    "MenpoModel.C17.mean_scales",
+    "MenpoModel.C17.boundary_none_iff",
+    "MenpoModel.C17.boundary_closed_all_false",
+    # masking and edge structure; purity of the queries
+    "MenpoModel.C17.mask_edges_renumbered",
+    "MenpoModel.C17.queries_pure",
+    "MenpoModel.C17.mask_after_queries",
+    "MenpoModel.C17.grid_triangulation_wellformed",
+    "MenpoModel.C17.boundFromEdges_eq",
+    "MenpoModel.C17.history_pure",
+    "MenpoModel.C17.history_objects_never_change",
+    "MenpoModel.C17.history_memo_refuted",
+    # over the real numbers (Real.sqrt, no contract parameter): Props/C17Real.lean
+    "MenpoModel.C17.R3.normalize_unit",
+    "MenpoModel.C17.R3.normalize_smul_pos",
+    "MenpoModel.C17.R3.normalize_mulVecR",
+    "MenpoModel.C17.normalize1_cast",
+    "MenpoModel.C17.area3R_props",
+    "MenpoModel.C17.lenR_props",
+    "MenpoModel.C17.faceNormalR_props",
+    "MenpoModel.C17.faceNormalsR_scale",
+    "MenpoModel.C17.faceNormalsR_rotation",
+    "MenpoModel.C17.faceNormals_cast",
+    "MenpoModel.C17.vertexNormalsR_entry",
+    "MenpoModel.C17.vertexNormalsR_scale",
+    "MenpoModel.C17.vertexNormalsR_rotation",
+    "MenpoModel.C17.incidentSumR_order_independent",
+    "MenpoModel.C17.vertexNormals_cast",
+    "MenpoModel.C17.Generic.vertexSumsCoded_get",
+    "MenpoModel.C17.vertexNormalsR_coded",
 ]
 
 TOL = 1e-9
@@ -102,7 +186,15 @@ TOL = 1e-9
 # ================================================================================ generators
 
 GEOM_QUERIES = ("boundary_tri_index", "unique_edge_indices", "edge_indices", "tri_areas", "edge_lengths",
-                "unique_edge_lengths", "mean_edge_length", "mean_tri_area", "tri_normals", "vertex_normals")
+                "unique_edge_lengths", "mean_edge_length", "mean_tri_area", "tri_normals", "vertex_normals",
+                "edge_vectors", "unique_edge_vectors", "graph_edges")
+
+
+def query(mesh, q):
+    """one public geometry query by name (`graph_edges` = the edge list of as_pointgraph())"""
+    if q == "graph_edges":
+        return mesh.as_pointgraph().edges
+    return getattr(mesh, q)()
 
 
 def dy(rng, kmax=64, den=8):
@@ -136,8 +228,45 @@ CLOSED = {
 }
 
 
+TRILIST_DTYPES = ("int64", "int64", "int64", "uint8", "int16", "int32", "uint32", "uint64")
+
+
+def storage(rng, case):
+    """how the arrays are handed to the constructor: index dtype of the triangle list, memory order of the points"""
+    if "trilist_dtype" not in case:
+        case["trilist_dtype"] = rng.choice(TRILIST_DTYPES)
+    case["order"] = "F" if rng.random() < 0.25 else "C"
+    return case
+
+
+def gen_sliver(rng, d):
+    """a strip of thin but degenerate-free triangles (height 1/8 .. 1/2 over bases of length 4 .. 12)"""
+    k = rng.randint(2, 5)
+    base = rng.choice([4, 8, 12])
+    h = rng.choice([1, 2, 4]) / 8.0
+    pts, tris = [], []
+    for i in range(k + 1):
+        lo = [float(i * base), 0.0] + ([dy(rng, 8, 8)] if d == 3 else [])
+        hi = [float(i * base) + base / 2.0, h] + ([dy(rng, 8, 8)] if d == 3 else [])
+        pts += [lo, hi]
+    for i in range(k):
+        a, b, c, e = 2 * i, 2 * i + 1, 2 * i + 2, 2 * i + 3
+        tris += [[a, c, b], [b, c, e]]
+    if rng.random() < 0.5:
+        tris.append(list(tris[0]))             # a duplicated sliver
+    return dict(shape="sliver", d=d, points=pts, tris=tris)
+
+
 def gen_mesh(rng, d, allow_orphans=True):
     """-> dict(shape, d, points (list of float rows, pairwise distinct), tris)"""
+    if rng.random() < 0.08:
+        return gen_sliver(rng, d)
+    if d == 3 and rng.random() < 0.07:
+        # a flat, consistently oriented patch in the plane z = const (the motions of the geometry family tilt it)
+        r, c = rng.randint(2, 4), rng.randint(2, 4)
+        z = dy(rng, 16, 4)
+        pts = [[i + rng.randint(-2, 2) / 8.0, j + rng.randint(-2, 2) / 8.0, z] for i in range(r) for j in range(c)]
+        return dict(shape="flat-grid", d=3, points=pts, tris=grid_tris(r, c))
     k = rng.random()
     if k < 0.2:
         r, c = rng.randint(2, 4), rng.randint(2, 4)
@@ -167,8 +296,10 @@ def gen_mesh(rng, d, allow_orphans=True):
             a, b = rng.sample(t, 2)
             c = rng.choice([v for v in range(n) if v not in (a, b)])
             tris.append([a, b, c] if rng.random() < 0.5 else [b, a, c])
-        elif tris and rng.random() < 0.06:
-            tris.append(list(rng.choice(tris)))   # duplicated triangle
+        elif tris and rng.random() < 0.12:
+            t = list(rng.choice(tris))            # duplicated triangle, as is / rotated / reversed
+            r = rng.random()
+            tris.append(t if r < 0.4 else t[1:] + t[:1] if r < 0.7 else t[::-1])
         else:
             tris.append(rng.sample(range(n), 3))
     used = sorted({v for t in tris for v in t})
@@ -200,10 +331,11 @@ def build(case):
         case["points"] = base.points.tolist()
         case["tris"] = [[int(v) for v in t] for t in base.trilist]
         case["trilist_dtype"] = str(base.trilist.dtype)
-    pts = np.array(case["points"], dtype=float)
+    pts = np.array(case["points"], dtype=np.dtype(case.get("pdtype", "float64")), order=case.get("order", "C"))
     if case.get("tris") is None:
         from scipy.spatial import Delaunay
         tl = Delaunay(np.array(case.get("base2d", case["points"]), dtype=float)).simplices
+        case["trilist_dtype"] = str(tl.dtype)
         case["tris"] = [[int(v) for v in t] for t in tl]
     tl = np.array(case["tris"], dtype=np.dtype(case.get("trilist_dtype", "int64")))
     if "attrs" not in case:
@@ -212,7 +344,7 @@ def build(case):
     if cls == "plain":
         return TriMesh(pts, trilist=tl)
     if cls == "coloured":
-        return ColouredTriMesh(pts, trilist=tl, colours=np.array(a["colours"], dtype=float))
+        return ColouredTriMesh(pts, trilist=tl, colours=np.array(a["colours"], dtype=float, order=case.get("order", "C")))
     from menpo.image import Image
     r = np.random.RandomState(a["texture_seed"])
     tex = Image(r.randint(0, 17, size=(3, 4, 5)) / 16.0)
@@ -229,8 +361,10 @@ def gen_mask_case(rng):
     case["points"], case["tris"] = build_probe["points"], build_probe["tris"]
     if "trilist_dtype" in build_probe:
         case["trilist_dtype"] = build_probe["trilist_dtype"]
+    storage(rng, case)
     n, nt = len(case["points"]), len(case["tris"])
     case["attrs"] = gen_attrs(rng, case["cls"], n)
+    case["landmarks"] = rng.random() < 0.5
     by_tri = rng.random() < 0.3
     case["by"] = "tri" if by_tri else "vertex"
     k = rng.random()
@@ -304,6 +438,7 @@ def gen_geom_case(rng):
     case["points"], case["tris"] = probe["points"], probe["tris"]
     if "trilist_dtype" in probe:
         case["trilist_dtype"] = probe["trilist_dtype"]
+    storage(rng, case)
     case["attrs"] = gen_attrs(rng, case["cls"], len(case["points"]))
     case["motion"] = gen_motion(rng, d)
     return case
@@ -318,6 +453,7 @@ def gen_bound_case(rng):
     case["points"], case["tris"] = probe["points"], probe["tris"]
     if "trilist_dtype" in probe:
         case["trilist_dtype"] = probe["trilist_dtype"]
+    storage(rng, case)
     return case
 
 
@@ -334,15 +470,15 @@ def rows_equal(a, b):
 def slim(case):
     """JSON-able replay payload"""
     keep = {k: case[k] for k in ("shape", "d", "cls", "points", "tris", "attrs", "mask", "by", "motion",
-                                 "trilist_dtype", "family") if k in case}
+                                 "trilist_dtype", "order", "pdtype", "landmarks", "exps", "hseed", "steps", "grid", "family") if k in case}
     return keep
 
 
 def replay_code(case):
     cls = {"plain": "TriMesh", "coloured": "ColouredTriMesh", "textured": "TexturedTriMesh"}[case.get("cls", "plain")]
     lines = ["import numpy as np", "from menpo.shape import TriMesh, ColouredTriMesh, TexturedTriMesh",
-             "points = np.array(%r, dtype=float)" % (case["points"],),
-             "trilist = np.array(%r)" % (case["tris"],)]
+             "points = np.array(%r, dtype=%r, order=%r)" % (case["points"], case.get("pdtype", "float64"), case.get("order", "C")),
+             "trilist = np.array(%r, dtype=%r)" % (case["tris"], case.get("trilist_dtype", "int64"))]
     if cls == "TriMesh":
         lines.append("mesh = TriMesh(points, trilist=trilist)")
     elif cls == "ColouredTriMesh":
@@ -357,6 +493,13 @@ def replay_code(case):
         lines.append("print(result.points, result.trilist)")
     elif fam == "bound":
         lines.append("print(mesh.unique_edge_indices()); print(mesh.boundary_tri_index())")
+    elif fam == "scale":
+        lines.append("for k in %r:" % (case.get("exps") or [case.get("scale_exp", 0)],))
+        lines.append("    for dt in ('float64', 'float32'):")
+        lines.append("        m = TriMesh((points * 2.0 ** k).astype(dt), trilist=trilist)")
+        lines.append("        print(k, dt, m.tri_areas() / 4.0 ** k, m.edge_lengths() / 2.0 ** k)")
+        if case.get("d") == 3:
+            lines.append("        print(np.linalg.norm(m.tri_normals(), axis=1), np.linalg.norm(m.vertex_normals(), axis=1))")
     elif fam == "geom":
         lines.append("# motion p -> A p + t with A=%r t=%r (exact rationals)" % (case["motion"]["A"], case["motion"]["t"]))
         lines.append("print(mesh.tri_areas(), mesh.edge_lengths())")
@@ -393,10 +536,17 @@ def mask_case(ctx, case, lines=None, pending=None, cid=None):
     if warmed:
         for q in GEOM_QUERIES:
             try:
-                getattr(mesh, q)()
+                query(mesh, q)
             except Exception:   # noqa: BLE001 - judged by the geometry family, not here
                 pass
     ctx.count("mask-history:" + ("queried-before" if warmed else "fresh"))
+    lm = None
+    if case.get("landmarks"):
+        from menpo.shape import PointCloud
+        lm = np.array(case["points"][:2], dtype=float) + 0.5
+        mesh.landmarks["probe"] = PointCloud(lm.copy())
+    ctx.count("mask-landmarks:" + ("attached" if lm is not None else "none"))
+    ctx.count("mask-storage:trilist-%s:points-%s" % (case.get("trilist_dtype", "int64"), case.get("order", "C")))
     before = (mesh.points.copy(), mesh.trilist.copy())
     try:
         arr = np.array(m, dtype=bool)
@@ -457,12 +607,12 @@ def mask_case(ctx, case, lines=None, pending=None, cid=None):
             fresh = TriMesh(res.points.copy(), trilist=res.trilist.copy())
             for q in GEOM_QUERIES:
                 try:
-                    a = np.asarray(getattr(res, q)())
+                    a = np.asarray(query(res, q))
                     ea = None
                 except Exception as e:   # noqa: BLE001
                     a, ea = None, type(e).__name__
                 try:
-                    b = np.asarray(getattr(fresh, q)())
+                    b = np.asarray(query(fresh, q))
                     eb = None
                 except Exception as e:   # noqa: BLE001
                     b, eb = None, type(e).__name__
@@ -473,9 +623,29 @@ def mask_case(ctx, case, lines=None, pending=None, cid=None):
                                 "points and triangles%s" % (q, " (the mesh had been queried before masking)" if warmed else ""),
                                 dict(rp, queried_before_masking=warmed))
         if ok:
+            extra = {}
+            try:
+                extra["graph"] = sorted(tuple(sorted(int(x) for x in e)) for e in res.as_pointgraph().edges)
+                extra["bound"] = [bool(x) for x in res.boundary_tri_index()]
+            except Exception as e:   # noqa: BLE001
+                extra["error"] = type(e).__name__
+            # what the model does not carry: landmarks travel unchanged as an owned copy; nothing of the result
+            # is a view of the receiver (a write into the result cannot reach the mesh it came from)
+            if lm is not None:
+                try:
+                    got = res.landmarks["probe"].points
+                    extra["landmarks_ok"] = bool(np.array_equal(got, lm) and not np.shares_memory(got, mesh.landmarks["probe"].points))
+                except Exception as e:   # noqa: BLE001
+                    extra["landmarks_ok"] = False
+            pairs = [(res.points, mesh.points), (res.trilist, mesh.trilist)]
+            if cols:
+                pairs.append((res.colours, mesh.colours))
+            if tcs:
+                pairs += [(res.tcoords.points, mesh.tcoords.points), (res.texture.pixels, mesh.texture.pixels)]
+            extra["aliased"] = any(np.shares_memory(x, y) for x, y in pairs)
             obs = ("ok", rt, [list(r) for r in rpnts],
                    [list(r) for r in res.colours.tolist()] if cols else [],
-                   [list(r) for r in res.tcoords.points.tolist()] if tcs else [])
+                   [list(r) for r in res.tcoords.points.tolist()] if tcs else [], extra)
     removed_t = len(T) - len(kept)
     ctx.count("mask:%s:%s" % (case["by"], case["cls"]))
     ctx.count("mask-shape:" + case["shape"].split(":")[0])
@@ -509,7 +679,13 @@ def parse_mesh_reply(rep):
         i += 3
         arrs.append([[Fraction(x) for x in tk[i + c * j:i + c * j + c]] for j in range(r)])
         i += r * c
-    return ("ok", tris, arrs[0], arrs[1], arrs[2])
+    assert tk[i] == "G"
+    g = int(tk[i + 1]); i += 2
+    graph = sorted((int(tk[i + 2 * j]), int(tk[i + 2 * j + 1])) for j in range(g))
+    i += 2 * g
+    assert tk[i] == "B"
+    bound = [x == "1" for x in tk[i + 1:i + 1 + k]]
+    return ("ok", tris, arrs[0], arrs[1], arrs[2], dict(graph=graph, bound=bound))
 
 
 def compare_mask(ctx, case, obs, rep):
@@ -521,9 +697,23 @@ def compare_mask(ctx, case, obs, rep):
         if obs != mod:
             ctx.mismatch("mask", "model %r vs implementation %r" % (str(mod)[:120], str(obs)[:120]), rp)
         return
-    same = (mod[1] == obs[1] and all(rows_equal(a, [[F(x) for x in r] for r in b]) for a, b in zip(mod[2:], obs[2:])))
+    same = (mod[1] == obs[1] and all(rows_equal(a, [[F(x) for x in r] for r in b]) for a, b in zip(mod[2:5], obs[2:5])))
     if not same:
         ctx.mismatch("mask", "model triangles/arrays %r vs implementation %r" % (str(mod[1:3])[:160], str(obs[1:3])[:160]), rp)
+        return
+    ex, mx = obs[5], mod[5]
+    if "error" in ex:
+        ctx.mismatch("mask/as_pointgraph", "as_pointgraph / boundary_tri_index of the masked mesh raised %s" % ex["error"], rp)
+    else:
+        if ex["graph"] != mx["graph"]:
+            ctx.mismatch("mask/as_pointgraph", "edges of the masked mesh's point graph %r vs model (renumbered edges of the kept "
+                         "triangles) %r" % (ex["graph"][:8], mx["graph"][:8]), rp)
+        if ex["bound"] != mx["bound"]:
+            ctx.mismatch("mask/boundary_tri_index", "boundary index of the masked mesh %r vs model %r" % (ex["bound"], mx["bound"]), rp)
+    if ex.get("landmarks_ok") is False:
+        ctx.mismatch("mask/landmarks", "the landmarks of the mesh are not carried unchanged (as an owned copy) by masking", rp)
+    if ex.get("aliased"):
+        ctx.mismatch("mask/aliasing", "an array of the masked mesh is a view of the receiver's array", rp)
 
 
 # ================================================================================ family: geom
@@ -567,10 +757,17 @@ def geom_case(ctx, case, lines=None, pending=None, cid=None):
             moved = Translation(np.array([float(x) for x in t])).apply(moved)
         a0, a1 = mesh.tri_areas(), moved.tri_areas()
         e0, e1 = mesh.edge_lengths(), moved.edge_lengths()
-        ue0 = mesh.unique_edge_lengths()
-        n0 = n1 = v0 = None
+        ue0, ue1 = mesh.unique_edge_lengths(), moved.unique_edge_lengths()
+        means = [float(mesh.mean_edge_length()), float(mesh.mean_edge_length(unique=False)), float(mesh.mean_tri_area()),
+                 float(moved.mean_edge_length()), float(moved.mean_edge_length(unique=False)), float(moved.mean_tri_area())]
+        n0 = n1 = v0 = v1 = vperm = None
         if d == 3:
-            n0, n1, v0 = mesh.tri_normals(), moved.tri_normals(), mesh.vertex_normals()
+            n0, n1, v0, v1 = mesh.tri_normals(), moved.tri_normals(), mesh.vertex_normals(), moved.vertex_normals()
+            # the same triangles listed in another order (theorem vertex_sums_order_independent)
+            from menpo.shape import TriMesh
+            perm = list(range(len(T)))
+            common.random.Random(len(T) * 7919 + len(P)).shuffle(perm)
+            vperm = TriMesh(mesh.points, trilist=mesh.trilist[perm]).vertex_normals()
     except Exception as e:   # noqa: BLE001
         ctx.fail(site, "raises:" + type(e).__name__, "a geometry query raised %s: %s" % (type(e).__name__, str(e)[:100]), rp)
         ctx.count("geom:raised")
@@ -663,9 +860,11 @@ def geom_case(ctx, case, lines=None, pending=None, cid=None):
         if d == 3:
             lines.append("%s.2 vnorm %d %s %s" % (cid, len(P), tl, common.fmat(n0.tolist())))
         pending[cid] = (case, dict(a0=[float(x) for x in a0], a1=[float(x) for x in a1], e0=[float(x) for x in e0],
-                                   e1=[float(x) for x in e1],
+                                   e1=[float(x) for x in e1], u0=sorted(float(x) for x in ue0), u1=sorted(float(x) for x in ue1),
+                                   means=means,
                                    n0=None if n0 is None else n0.tolist(), n1=None if n1 is None else n1.tolist(),
-                                   v0=None if v0 is None else v0.tolist(), nondeg=nondeg, asc=asc, lsc=lsc))
+                                   v0=None if v0 is None else v0.tolist(), v1=None if v1 is None else v1.tolist(),
+                                   vperm=None if vperm is None else vperm.tolist(), nondeg=nondeg, asc=asc, lsc=lsc))
     return kind != "identity"
 
 
@@ -685,14 +884,23 @@ def parse_geom(rep, d):
         assert tk[i] == "N"
         k = int(tk[i + 1]); i += 2
         out["N"] = [[Fraction(x) for x in tk[i + 3 * j:i + 3 * j + 3]] for j in range(k)]
+        i += 3 * k
+    assert tk[i] == "U"
+    k = int(tk[i + 1]); i += 2
+    out["U"] = [Fraction(x) for x in tk[i:i + k]]
     return out
+
+
+def fmean(xs):
+    xs = list(xs)
+    return sum(xs) / len(xs) if xs else float("nan")
 
 
 def compare_geom(ctx, case, obs, model, cid):
     d = case["d"]
     rp = dict(slim(case), call=replay_code(case))
     kind = case["motion"]["kind"]
-    for tag, akey, ekey, nkey in ((".0", "a0", "e0", "n0"), (".1", "a1", "e1", "n1")):
+    for tag, akey, ekey, nkey, ukey, mo in ((".0", "a0", "e0", "n0", "u0", 0), (".1", "a1", "e1", "n1", "u1", 3)):
         g = parse_geom(model[cid + tag], d)
         if g is None:
             ctx.mismatch("geom", "model answered %r" % model[cid + tag][:80], rp)
@@ -705,6 +913,14 @@ def compare_geom(ctx, case, obs, model, cid):
         me = [fsqrt(x) for x in g["E"]]
         if not all(common.close(x, y, obs["lsc"], TOL) for x, y in zip(obs[ekey], me)):
             ctx.mismatch("edge_lengths", "model %r vs implementation %r" % (me[:6], obs[ekey][:6]), rp)
+        mu = sorted(fsqrt(x) for x in g["U"])
+        if len(mu) != len(obs[ukey]) or not all(common.close(x, y, obs["lsc"], TOL) for x, y in zip(obs[ukey], mu)):
+            ctx.mismatch("unique_edge_lengths", "model %r vs implementation %r" % (mu[:6], obs[ukey][:6]), rp)
+        mm = [fmean(mu), fmean(me), fmean(float(x) for x in ma)]
+        for j, (nm, sc) in enumerate((("mean_edge_length(unique=True)", obs["lsc"]), ("mean_edge_length(unique=False)", obs["lsc"]),
+                                      ("mean_tri_area", obs["asc"]))):
+            if not common.close(obs["means"][mo + j], mm[j], sc, TOL):
+                ctx.mismatch(nm, "model %r vs implementation %r" % (mm[j], obs["means"][mo + j]), rp)
         if d == 3:
             for j, raw in enumerate(g["N"]):
                 if not obs["nondeg"][j]:
@@ -725,6 +941,390 @@ def compare_geom(ctx, case, obs, model, cid):
                 ctx.mismatch("vertex_normals", "vertex %d: model %r normalised vs implementation %r"
                              % (v, [float(x) / r for x in sm], obs["v0"][v]), rp)
                 break
+            if case["shape"] == "flat-grid" and any(v in t_ for t_ in case["tris"]):
+                # theorem flat_mesh_normals: every triangle normal and every vertex normal is the plane normal
+                if not all(abs(x - y) <= 1e-9 for x, y in zip(obs["v0"][v], obs["n0"][0])) or \
+                        not all(abs(x - y) <= 1e-9 for nr in obs["n0"] for x, y in zip(nr, obs["n0"][0])):
+                    ctx.mismatch("vertex_normals/flat", "flat mesh: vertex %d has normal %r, the triangles have normal %r"
+                                 % (v, obs["v0"][v], obs["n0"][0]), rp)
+                    break
+            # theorems about the accumulated normals, observed on the real code: independent of the triangle order,
+            # rotated with the mesh (vertex_sums_order_independent, vertex_normals_follow_rotation)
+            if r < 1e-3:
+                continue        # nearly cancelling incident normals: the direction is ill-conditioned
+            if not all(abs(x - y) <= 1e-9 for x, y in zip(obs["vperm"][v], obs["v0"][v])):
+                ctx.mismatch("vertex_normals/order", "vertex %d: %r with the triangles listed in another order, %r before"
+                             % (v, obs["vperm"][v], obs["v0"][v]), rp)
+                break
+            if kind in ("rotation", "rigid"):
+                Af = [[float(Fraction(x)) for x in r_] for r_ in case["motion"]["A"]]
+                want = [sum(Af[i][c] * obs["v0"][v][c] for c in range(3)) for i in range(3)]
+            else:
+                want = obs["v0"][v]
+            if not all(abs(x - y) <= 1e-9 for x, y in zip(want, obs["v1"][v])):
+                ctx.mismatch("vertex_normals/motion", "vertex %d: normal of the moved mesh %r, moved normal %r"
+                             % (v, obs["v1"][v], want), rp)
+                break
+
+
+# ================================================================================ family: scale
+
+SCALE_EXPS = (-30, -24, -20, -16, -12, -10, 10, 14, 20)
+SCALE_DTYPES = ("float64", "float32")
+REL = {"float64": 1e-9, "float32": 1e-4}      # relative tolerance appropriate to the storage dtype
+
+
+def well_shaped(points, tris):
+    """exact: every triangle has |cross| >= 1/2 and |cross| > |e1||e2|/4 (no sliver, no tiny triangle) at unit scale"""
+    for t in tris:
+        a, b, c = (points[v] for v in t)
+        u = [F(y) - F(x) for x, y in zip(a, b)]
+        v = [F(y) - F(x) for x, y in zip(a, c)]
+        uu, vv, uv = sum(x * x for x in u), sum(x * x for x in v), sum(x * y for x, y in zip(u, v))
+        cr = uu * vv - uv * uv
+        if cr < Fraction(1, 4) or 16 * cr <= uu * vv:
+            return False
+    return True
+
+
+def gen_scale_case(rng):
+    """a well-shaped unit mesh with dyadic coordinates (multiples of 1/8, |x| <= 8): x 2^k is exact in float64 and float32"""
+    d = rng.choice([3, 3, 3, 2])
+    while True:
+        if d == 2 or rng.random() < 0.7:
+            r, c = rng.randint(2, 4), rng.randint(2, 4)
+            pts = [[i + rng.randint(-2, 2) / 8.0, j + rng.randint(-2, 2) / 8.0] + ([rng.randint(-8, 8) / 8.0] if d == 3 else [])
+                   for i in range(r) for j in range(c)]
+            tris, shape = grid_tris(r, c), "scale-grid"
+        else:
+            ring = [[2, 0], [1, 2], [-1, 2], [-2, 0], [-1, -2], [1, -2]]
+            pts = [[float(x), float(y), rng.randint(-2, 2) / 8.0] for x, y in ring] + [[0.0, 0.0, rng.choice([1.0, 1.5, 2.0, -1.25])]]
+            tris = [[i, (i + 1) % 6, 6] for i in range(6)]
+            if rng.random() < 0.5:
+                tris = tris[:rng.randint(3, 5)]       # an open fan
+            shape = "scale-cone"
+        if well_shaped(pts, tris):
+            break
+    case = dict(shape=shape, d=d, cls=rng.choice(["plain", "plain", "coloured"]), points=pts, tris=tris,
+                exps=list(SCALE_EXPS))
+    case["attrs"] = gen_attrs(rng, case["cls"], len(pts))
+    return storage(rng, case)
+
+
+def _np_rows(a):
+    import numpy as np
+    return np.asarray(a, dtype=np.float64).tolist()
+
+
+def scale_case(ctx, case, lines=None, pending=None, cid=None):
+    """the same well-shaped mesh at the uniform scales 2^k, k in case['exps'], stored as float64 and as float32"""
+    import numpy as np
+    site = "C17/scale"
+    case["family"] = "scale"
+    d, P, T = case["d"], case["points"], case["tris"]
+    rp0 = dict(slim(case), call=replay_code(case))
+    unit = build(dict(case, pdtype="float64"))
+    try:
+        n0 = v0 = None
+        if d == 3:
+            n0, v0 = _np_rows(unit.tri_normals()), _np_rows(unit.vertex_normals())
+    except Exception as e:   # noqa: BLE001
+        ctx.fail(site, "raises:" + type(e).__name__, "a normal query raised %s at unit scale" % type(e).__name__, rp0)
+        return True
+    ex_a = [fsqrt(ex_cross_sq(P[t_[0]], P[t_[1]], P[t_[2]])) for t_ in T]
+    ex_e = [fsqrt(sum((F(x) - F(y)) ** 2 for x, y in zip(P[t_[i]], P[t_[j]]))) for t_ in T for (i, j) in ((0, 1), (1, 2), (2, 0))]
+    # vertices whose incident unit normals do not (nearly) cancel
+    vlive = []
+    if d == 3:
+        for v in range(len(P)):
+            acc = [sum(n0[j][q] * t_.count(v) for j, t_ in enumerate(T)) for q in range(3)]
+            vlive.append(math.sqrt(sum(x * x for x in acc)) >= 1e-3)
+    obs = {}
+    for k in case["exps"]:
+        s = 2.0 ** k
+        exact = (np.array(P, dtype=np.float64) * s)
+        for dt in SCALE_DTYPES:
+            tol = REL[dt]
+            rp = dict(rp0, scale_exp=k, pdtype=dt)
+            pts = exact.astype(dt)
+            if not np.array_equal(pts.astype(np.float64), exact):
+                raise common.Infra("scale family: 2^%d x the unit mesh is not representable in %s" % (k, dt))
+            try:
+                mesh = build(dict(case, points=pts.tolist(), pdtype=dt))
+                if str(mesh.points.dtype) != dt:
+                    raise common.Infra("scale family: the mesh stores %s points as %s" % (dt, mesh.points.dtype))
+                a, e = _np_rows(mesh.tri_areas()), _np_rows(mesh.edge_lengths())
+                n = v = None
+                if d == 3:
+                    n, v = _np_rows(mesh.tri_normals()), _np_rows(mesh.vertex_normals())
+            except common.Infra:
+                raise
+            except Exception as ex:   # noqa: BLE001
+                ctx.fail(site, "raises:" + type(ex).__name__, "a geometry query raised %s at scale 2^%d (%s)"
+                         % (type(ex).__name__, k, dt), rp)
+                continue
+            ok = True
+            what = "at scale 2^%d with %s vertices" % (k, dt)
+            ok &= ctx.check(len(a) == len(T) and len(e) == 3 * len(T), site, "shape", "tri_areas / edge_lengths have the wrong length", rp)
+            if not ok:
+                continue
+            ok &= ctx.check(all(x >= 0 for x in a), site, "negative-area", "a triangle area is negative " + what, rp)
+            ok &= ctx.check(all(x >= 0 for x in e), site, "negative-length", "an edge length is negative " + what, rp)
+            ok &= ctx.check(all(abs(x - s * s * y) <= tol * s * s * y for x, y in zip(a, ex_a)), site, "area-scaling",
+                            "tri_areas %s is not s^2 times the area of the unit mesh" % what, rp)
+            ok &= ctx.check(all(abs(x - s * y) <= tol * s * y for x, y in zip(e, ex_e)), site, "length-scaling",
+                            "edge_lengths %s is not s times the edge lengths of the unit mesh" % what, rp)
+            if d == 3:
+                lens = [math.sqrt(sum(x * x for x in r)) for r in n]
+                ok &= ctx.check(all(abs(x - 1.0) <= tol for x in lens), site, "normal-not-unit",
+                                "a triangle normal %s is not a unit vector (lengths %.6g .. %.6g); the triangles are well shaped"
+                                % (what, min(lens), max(lens)), rp)
+                ok &= ctx.check(all(abs(x - y) <= tol for r, q in zip(n, n0) for x, y in zip(r, q)), site, "normal-depends-on-scale",
+                                "the triangle normals %s differ from the normals of the same mesh at unit scale" % what, rp)
+                perp = True
+                for j, t_ in enumerate(T):
+                    for (i, jj) in ((0, 1), (0, 2), (1, 2)):
+                        ev = [float(exact[t_[jj]][c] - exact[t_[i]][c]) for c in range(3)]
+                        el = math.sqrt(sum(x * x for x in ev))
+                        perp &= abs(sum(x * y for x, y in zip(n[j], ev))) <= tol * el
+                ok &= ctx.check(perp, site, "normal-not-perpendicular", "a triangle normal %s is not perpendicular to its triangle" % what, rp)
+                vl = [math.sqrt(sum(x * x for x in r)) for r in v]
+                ok &= ctx.check(all(abs(x - 1.0) <= tol for x, live in zip(vl, vlive) if live), site, "vertex-normal-not-unit",
+                                "a vertex normal %s is not a unit vector" % what, rp)
+                ok &= ctx.check(all(abs(x - y) <= 10 * tol for r, q, live in zip(v, v0, vlive) if live for x, y in zip(r, q)), site,
+                                "vertex-normal-depends-on-scale",
+                                "the vertex normals %s differ from the vertex normals of the same mesh at unit scale" % what, rp)
+            ctx.count("scale:%dd:%s:2^%d" % (d, dt, k))
+            if ok:
+                obs[(k, dt)] = dict(a=a, e=e, n=n, v=v)
+    ctx.count("scale-shape:" + case["shape"])
+    ctx.count("scale-storage:trilist-%s:points-%s" % (case.get("trilist_dtype", "int64"), case.get("order", "C")))
+    if lines is not None:
+        tl = "%d %s" % (len(T), " ".join(str(v) for t_ in T for v in t_))
+        ident = " ".join("1" if i == j else "0" for i in range(d) for j in range(d))
+        for k in case["exps"]:
+            sc = Fraction(2) ** k
+            rows = [[F(x) * sc for x in r] for r in P]
+            lines.append("%s.g%d geom%d %s %s %s %s" % (cid, k, d, common.fmat(rows), tl, ident, " ".join(["0"] * d)))
+            if d == 3 and (k, "float64") in obs:
+                lines.append("%s.v%d vnorm %d %s %s" % (cid, k, len(P), tl, common.fmat(obs[(k, "float64")]["n"])))
+        pending[cid] = (case, dict(obs=obs, vlive=vlive))
+    return True
+
+
+def compare_scale(ctx, case, ob, model, cid):
+    d = case["d"]
+    rp0 = dict(slim(case), call=replay_code(case))
+    for (k, dt), o in ob["obs"].items():
+        tol = REL[dt]
+        rp = dict(rp0, scale_exp=k, pdtype=dt)
+        g = parse_geom(model["%s.g%d" % (cid, k)], d)
+        if g is None:
+            ctx.mismatch("scale", "model answered %r" % model["%s.g%d" % (cid, k)][:80], rp)
+            return
+        ma = [float(x) for x in g["A"]] if d == 2 else [fsqrt(x) for x in g["A"]]
+        if not all(abs(x - y) <= tol * y for x, y in zip(o["a"], ma)):
+            ctx.mismatch("scale/tri_areas", "2^%d %s: model %r vs implementation %r" % (k, dt, ma[:4], o["a"][:4]), rp)
+        me = [fsqrt(x) for x in g["E"]]
+        if not all(abs(x - y) <= tol * y for x, y in zip(o["e"], me)):
+            ctx.mismatch("scale/edge_lengths", "2^%d %s: model %r vs implementation %r" % (k, dt, me[:4], o["e"][:4]), rp)
+        if d == 3:
+            for j, raw in enumerate(g["N"]):
+                nr = sum(x * x for x in raw)
+                r = fsqrt(nr)
+                unit = [float(x) / r for x in raw]
+                if not all(abs(x - y) <= tol for x, y in zip(unit, o["n"][j])):
+                    ctx.mismatch("scale/tri_normals", "2^%d %s: model %r vs implementation %r" % (k, dt, unit, o["n"][j]), rp)
+                    break
+            if dt == "float64":
+                tk = model["%s.v%d" % (cid, k)].split()
+                nv = int(tk[1])
+                sums = [[Fraction(x) for x in tk[2 + 3 * j:5 + 3 * j]] for j in range(nv)]
+                for v, sm in enumerate(sums):
+                    if not ob["vlive"][v]:
+                        continue
+                    r = fsqrt(sum(x * x for x in sm))
+                    if not all(abs(float(x) / r - y) <= 1e-9 for x, y in zip(sm, o["v"][v])):
+                        ctx.mismatch("scale/vertex_normals", "2^%d vertex %d: model %r normalised vs implementation %r"
+                                     % (k, v, [float(x) / r for x in sm], o["v"][v]), rp)
+                        break
+
+
+# ================================================================================ family: history
+
+def gen_history_case(rng):
+    case = gen_mask_case(rng)
+    case["hseed"] = rng.randint(0, 10 ** 9)
+    case["steps"] = rng.randint(2, 4)
+    return case
+
+
+def snapshot(mesh, cols, tcs):
+    """the arrays of an object as the model reports them (`M` observation)"""
+    extra = {"aliased": False}
+    try:
+        extra["graph"] = sorted(tuple(sorted(int(x) for x in e)) for e in mesh.as_pointgraph().edges)
+        extra["bound"] = [bool(x) for x in mesh.boundary_tri_index()]
+    except Exception as e:   # noqa: BLE001
+        extra["error"] = type(e).__name__
+    return ("ok", [tuple(int(v) for v in t) for t in mesh.trilist], mesh.points.tolist(),
+            mesh.colours.tolist() if cols else [], mesh.tcoords.points.tolist() if tcs else [], extra)
+
+
+def history_case(ctx, case, lines=None, pending=None, cid=None):
+    """a population of mesh objects under queries, copies and maskings (theorems history_pure,
+    history_objects_never_change, queries_pure; the regenerated write table): after every masking the new object
+    answers every query as a mesh freshly built from its own arrays, it is the specified masking of the arrays its
+    parent holds, no existing object changes, and the whole observation trace equals the Lean model's"""
+    import numpy as np
+    from menpo.shape import TriMesh
+    site = "C17/history"
+    case["family"] = "history"
+    rp = dict(slim(case), hseed=case["hseed"], steps=case["steps"], call=replay_code(dict(case, family="mask")))
+    rng = common.random.Random(case["hseed"])
+    cols = "colours" in case["attrs"]
+    tcs = "tcoords" in case["attrs"]
+    objs = [build(case)]
+    frozen = [(objs[0].points.copy(), objs[0].trilist.copy())]
+    ops, obs, trace = [], [], []
+
+    def observe(j, kind):
+        try:
+            if kind == "e":
+                val = [tuple(int(x) for x in e) for e in objs[j].edge_indices()]
+            else:
+                val = [bool(x) for x in objs[j].boundary_tri_index()]
+        except Exception as e:   # noqa: BLE001
+            ctx.fail(site, "raises:" + type(e).__name__, "%s of object %d raised %s after the history %r"
+                     % ("edge_indices" if kind == "e" else "boundary_tri_index", j, type(e).__name__, trace[-8:]),
+                     dict(rp, trace=list(trace)))
+            return False
+        ops.append("%s %d" % (kind, j))
+        obs.append((kind, val))
+        trace.append(("edge_indices" if kind == "e" else "boundary_tri_index", j))
+        return True
+
+    for step in range(case["steps"]):
+        j = rng.randrange(len(objs))
+        cur = objs[j]
+        P = [tuple(r) for r in cur.points.tolist()]
+        T = [tuple(int(v) for v in t) for t in cur.trilist]
+        n = len(P)
+        for q in rng.sample(GEOM_QUERIES, 4):
+            try:
+                query(cur, q)
+            except Exception:   # noqa: BLE001
+                pass
+            trace.append((q, j))
+        if not observe(j, "e"):
+            return True
+        if rng.random() < 0.5 and not observe(j, "b"):
+            return True
+        if rng.random() < 0.35:
+            objs.append(cur.copy())
+            frozen.append((objs[-1].points.copy(), objs[-1].trilist.copy()))
+            ops.append("c %d" % j)
+            obs.append(("M", snapshot(objs[-1], cols, tcs), dict(case, points=[list(r) for r in P], tris=[list(t) for t in T], family="mask")))
+            trace.append(("copy", j))
+            j = len(objs) - 1
+            cur = objs[j]
+        by_tri = rng.random() < 0.3
+        if by_tri:
+            m = [rng.random() < 0.7 for _ in T]
+            if not any(m):
+                m[rng.randrange(len(T))] = True
+            sel = {v for t, b in zip(T, m) if b for v in t}
+            vmask = [v in sel for v in range(n)]
+        else:
+            m = [rng.random() < 0.85 for _ in range(n)]
+            for v in rng.choice(T):
+                m[v] = True
+            vmask = m
+        kept = [t for t in T if all(vmask[v] for v in t)]
+        trace.append(("from_tri_mask" if by_tri else "from_mask", j, [int(b) for b in m]))
+        srp = dict(rp, trace=list(trace), step=step)
+        try:
+            arr = np.array(m, dtype=bool)
+            res = cur.from_tri_mask(arr) if by_tri else cur.from_mask(arr)
+        except Exception as e:   # noqa: BLE001
+            ctx.fail(site, "raises:" + type(e).__name__, "step %d: masking a mesh with a mask keeping %d whole triangle(s) "
+                     "raised %s after the history %r" % (step, len(kept), type(e).__name__, trace[-8:]), srp)
+            return True
+        rt = [tuple(int(v) for v in t) for t in res.trilist]
+        rpnts = [tuple(r) for r in res.points.tolist()]
+        ok = ctx.check(len(rt) == len(kept) and all(0 <= v < len(rpnts) for t in rt for v in t) and
+                       Counter(tuple(P[v] for v in t) for t in kept) == Counter(tuple(rpnts[v] for v in t) for t in rt),
+                       site, "triangle-coordinates", "step %d: the triangles of the masked object are not the whole triangles of "
+                       "the object it was masked from (history %r)" % (step, trace[-8:]), srp)
+        if not ok:
+            return True
+        fresh = TriMesh(res.points.copy(), trilist=res.trilist.copy())
+        for q in GEOM_QUERIES:
+            try:
+                a, ea = np.asarray(query(res, q)), None
+            except Exception as e:   # noqa: BLE001
+                a, ea = None, type(e).__name__
+            try:
+                b, eb = np.asarray(query(fresh, q)), None
+            except Exception as e:   # noqa: BLE001
+                b, eb = None, type(e).__name__
+            same = (ea == eb) if (a is None or b is None) else (
+                a.shape == b.shape and bool(np.allclose(a, b, rtol=1e-9, atol=1e-12, equal_nan=True)))
+            ctx.check(same, site, "stale-geometry:" + q, "step %d: %s() of the object differs from the same query on a mesh freshly "
+                      "built from its points and triangles (history %r)" % (step, q, trace[-8:]), srp)
+        objs.append(res)
+        frozen.append((res.points.copy(), res.trilist.copy()))
+        ops.append("%s %d %d %s" % ("t" if by_tri else "m", j, len(m), " ".join("1" if b else "0" for b in m)))
+        obs.append(("M", snapshot(res, cols, tcs), dict(case, points=[list(r) for r in P], tris=[list(t) for t in T], mask=m,
+                                                       by="tri" if by_tri else "vertex", family="mask")))
+        # no call changes an object that exists
+        for k_, (fp, ft) in enumerate(frozen):
+            ctx.check(np.array_equal(objs[k_].points, fp) and np.array_equal(objs[k_].trilist, ft), site, "receiver-mutated",
+                      "step %d: object %d changed although it was only queried, masked or copied (history %r)"
+                      % (step, k_, trace[-8:]), srp)
+        ctx.count("history:step-%d" % step)
+    if objs and not observe(len(objs) - 1, "e"):
+        return True
+    observe(len(objs) - 1, "b")
+    ctx.count("history:%s" % case["cls"])
+    ctx.count("history:objects-%d" % min(len(objs), 6))
+    if lines is not None and ops:
+        def mat(rows):
+            return common.fmat(rows) if rows else "0 0"
+        T0 = case["tris"]
+        lines.append("%s hist %s %s %s %d %s %d %s" % (
+            cid, mat(case["points"]), mat(case["attrs"].get("colours", [])), mat(case["attrs"].get("tcoords", [])),
+            len(T0), " ".join(str(v) for t in T0 for v in t), len(ops), " ".join(ops)))
+        pending[cid] = (dict(case, family="history"), obs)
+    return True
+
+
+def compare_history(ctx, case, obs, rep):
+    rp = dict(slim(case), hseed=case.get("hseed"), steps=case.get("steps"))
+    parts = [x.strip() for x in rep.split(" ; ")]
+    if len(parts) != len(obs):
+        ctx.mismatch("history", "model answered %d observations for %d calls: %r" % (len(parts), len(obs), rep[:120]), rp)
+        return
+    for k, (o, part) in enumerate(zip(obs, parts)):
+        tk = part.split()
+        if o[0] == "e":
+            me = [(int(tk[2 + 2 * j]), int(tk[3 + 2 * j])) for j in range(int(tk[1]))] if tk[0] == "E" else None
+            if me != o[1]:
+                ctx.mismatch("history/edge_indices", "call %d: model %r vs implementation %r" % (k, str(me)[:100], str(o[1])[:100]), rp)
+                return
+        elif o[0] == "b":
+            mb = [x == "1" for x in tk[1:]] if tk[0] == "B" else None
+            if mb != o[1]:
+                ctx.mismatch("history/boundary_tri_index", "call %d: model %r vs implementation %r" % (k, mb, o[1]), rp)
+                return
+        else:
+            if tk[0] != "M":
+                ctx.mismatch("history/new-object", "call %d: model %r, the implementation made an object" % (k, part[:80]), rp)
+                return
+            n_before = len(ctx.mismatches)
+            compare_mask(ctx, o[2] if "mask" in o[2] else dict(o[2], mask=[], by="vertex"), o[1], part[2:])
+            if len(ctx.mismatches) > n_before:
+                return
 
 
 # ================================================================================ family: bound
@@ -770,13 +1370,27 @@ def bound_case(ctx, case, lines=None, pending=None, cid=None):
         ctx.check(len(set(frozenset(e) for e in ue)) == len(ue), site2, "edge-listed-twice", "an undirected edge is listed twice", rp)
         ctx.check(set(frozenset(e) for e in ue) == set(cnt), site2, "edge-set",
                   "unique_edge_indices is not the set of undirected triangle sides", rp)
+    # theorem edge_sum_by_multiplicity on the real queries: the edge_lengths slots are the unique edges counted with
+    # their multiplicity; uniform multiplicity => both means coincide (mean_edge_uniform_multiplicity)
+    sums = None
+    if ue is not None:
+        try:
+            el = [float(x) for x in mesh.edge_lengths()]
+            ul = [float(x) for x in mesh.unique_edge_lengths()]
+            weighted = sum(cnt[frozenset(e)] * l for e, l in zip(ue, ul))
+            sums = dict(all=sum(el), weighted=weighted, n_slots=len(el), n_unique=len(ul),
+                        mean_u=float(mesh.mean_edge_length()), mean_a=float(mesh.mean_edge_length(unique=False)),
+                        uniform=len(set(cnt.values())) == 1)
+        except Exception as e:   # noqa: BLE001
+            sums = dict(error=type(e).__name__)
     ctx.count("bound:" + ("closed/no-odd-edge" if not odd else "max-mult-%d" % min(max(cnt.values()), 4)))
+    ctx.count("bound-storage:trilist-%s" % case.get("trilist_dtype", "int64"))
     ctx.count("bound-shape:" + case["shape"].split(":")[0])
     if lines is not None:
         tl = "%d %s" % (len(T), " ".join(str(v) for t in T for v in t))
         lines.append("%s.0 bound %d %s" % (cid, len(case["points"]), tl))
         lines.append("%s.1 uedges %s" % (cid, tl))
-        pending[cid] = (case, dict(got=got, err=err, ue=ue))
+        pending[cid] = (case, dict(got=got, err=err, ue=ue, sums=sums))
     return len(T) >= 2
 
 
@@ -801,6 +1415,176 @@ def compare_bound(ctx, case, obs, model, cid):
         me = {(int(tk[2 + 2 * j]), int(tk[3 + 2 * j])) for j in range(k)}
         if me != {tuple(sorted(e)) for e in obs["ue"]} or k != len(obs["ue"]):
             ctx.mismatch("unique_edge_indices", "model %r vs implementation %r" % (sorted(me)[:8], sorted(obs["ue"])[:8]), rp)
+    sm = obs.get("sums")
+    if sm is not None:
+        if "error" in sm:
+            ctx.mismatch("edge_lengths", "edge_lengths / unique_edge_lengths / mean_edge_length raised %s" % sm["error"], rp)
+        else:
+            sc = 1.0 + abs(sm["all"])
+            if sm["n_slots"] != 3 * len(case["tris"]) or not common.close(sm["all"], sm["weighted"], sc, TOL):
+                ctx.mismatch("edge_sum_by_multiplicity", "sum of edge_lengths %r over %d slots, multiplicity-weighted sum of "
+                             "unique_edge_lengths %r" % (sm["all"], sm["n_slots"], sm["weighted"]), rp)
+            if sm["uniform"] and not common.close(sm["mean_u"], sm["mean_a"], sc, TOL):
+                ctx.mismatch("mean_edge_length", "all edges have the same multiplicity but mean_edge_length(unique=True) = %r, "
+                             "(unique=False) = %r" % (sm["mean_u"], sm["mean_a"]), rp)
+
+
+# ================================================================================ regenerated write table
+
+MUTATORS = ("from_vector_inplace",)       # declared in-place mutators: not queries
+
+
+def _live_meshes():
+    """live objects of the three classes, 2-D and 3-D, with and without an instantiated landmark manager,
+    float64 / float32 points, several trilist dtypes"""
+    import numpy as np
+    from menpo.shape import TriMesh, ColouredTriMesh, TexturedTriMesh, PointCloud
+    from menpo.image import Image
+    p3 = np.array([[0, 0, 0], [1, 0, 0.5], [0, 1, 0.25], [1, 1, 1], [2, 2, 2.0], [3, 1, 0]])
+    p2 = p3[:, :2].copy()
+    tl = np.array([[0, 1, 2], [1, 3, 2], [3, 4, 5]])
+    out = []
+    for pts, tdt, lm in ((p3, "int64", True), (p2, "uint32", True), (p3.astype("float32"), "int32", False), (p2, "int64", False)):
+        t = tl.astype(tdt)
+        r = np.random.RandomState(7)
+        ms = [TriMesh(pts, trilist=t), ColouredTriMesh(pts, trilist=t, colours=r.rand(6, 3)),
+              TexturedTriMesh(pts, r.rand(6, 2), Image(r.rand(3, 4, 5)), trilist=t)]
+        for m in ms:
+            if lm:
+                m.landmarks["a"] = PointCloud(pts[:2].copy())
+        out.append(ms)
+    return out
+
+
+def _query_actions(mesh, name):
+    """the calls that stand for the public query `name` (None: not a query)"""
+    import inspect
+    import numpy as np
+    cls = type(mesh)
+    attr = inspect.getattr_static(cls, name)
+    if isinstance(attr, property):
+        return [lambda: getattr(mesh, name)]
+    if isinstance(attr, (classmethod, staticmethod)) or not callable(attr) or name in MUTATORS:
+        return None
+    n, nt = mesh.n_points, mesh.n_tris
+    special = {
+        "from_mask": [lambda: mesh.from_mask(np.arange(n) != n - 1), lambda: mesh.from_mask(np.ones(n, dtype=bool))],
+        "from_tri_mask": [lambda: mesh.from_tri_mask(np.arange(nt) != 0)],
+        "from_vector": [lambda: mesh.from_vector(mesh.as_vector() * 2.0)],
+        "distance_to": [lambda: mesh.distance_to(mesh)],
+        "with_dims": [lambda: mesh.with_dims([0, 1])],
+        "constrain_to_bounds": [lambda: mesh.constrain_to_bounds(mesh.bounds())],
+        "rescale_texture": [lambda: mesh.rescale_texture(0.0, 1.0)],
+        "mean_edge_length": [lambda: mesh.mean_edge_length(), lambda: mesh.mean_edge_length(unique=False)],
+        "as_pointgraph": [lambda: mesh.as_pointgraph(), lambda: mesh.as_pointgraph(copy=False, skip_checks=True)],
+    }
+    if name in special:
+        return special[name]
+    sig = inspect.signature(attr)
+    req = [p for p in list(sig.parameters.values())[1:]
+           if p.default is inspect.Parameter.empty and p.kind in (p.POSITIONAL_ONLY, p.POSITIONAL_OR_KEYWORD)]
+    if req:
+        return []          # a public method the harness does not know how to call: listed with no measurement
+    return [lambda: getattr(mesh, name)(), lambda: getattr(mesh, name)()]
+
+
+def write_table():
+    """[(class, query, attributes written)] measured on live meshes: every public non-viewer attribute of the three
+    classes, each on freshly built objects (so a lazily created attribute shows), called twice"""
+    rows = {}
+    order = ["TriMesh", "ColouredTriMesh", "TexturedTriMesh"]
+    probe = _live_meshes()[0]
+    names = {type(m).__name__: [q for q in sorted(dir(type(m))) if not q.startswith("_") and not q.startswith("view")]
+             for m in probe}
+    for cname in order:
+        for q in names[cname]:
+            w, is_query = set(), False
+            for ms in _live_meshes():
+                m = [x for x in ms if type(x).__name__ == cname][0]
+                acts = _query_actions(m, q)
+                if acts is None:
+                    continue
+                is_query = True
+                for a in acts:
+                    w.update(common.attr_writes(m, a))
+            if is_query:
+                rows[(cname, q)] = sorted(w)
+    return [(c, q, rows[(c, q)]) for c in order for q in names[c] if (c, q) in rows]
+
+MECH_TRIMESH = ("from_tri_mask", "_isolated_mask", "tri_areas", "boundary_tri_index", "edge_indices", "unique_edge_indices",
+                "edge_vectors", "edge_lengths", "unique_edge_vectors", "unique_edge_lengths", "mean_edge_length", "mean_tri_area",
+                "tri_normals", "vertex_normals", "as_pointgraph")
+SUPPLIED = ("_isolated_mask", "as_pointgraph", "boundary_tri_index", "copy", "edge_indices", "edge_lengths", "edge_vectors",
+            "from_mask", "from_tri_mask", "mean_edge_length", "mean_tri_area", "tri_areas", "tri_normals",
+            "unique_edge_indices", "unique_edge_lengths", "unique_edge_vectors", "vertex_normals")
+
+
+def mechanism_tables():
+    """(suppliers, mechanism): which class of the MRO defines each modelled method for the three mesh classes, and the
+    names referenced by the body of every function the model transcribes branch for branch (code object co_names)"""
+    from menpo.shape import TriMesh, ColouredTriMesh, TexturedTriMesh
+    import menpo.shape.mesh.normals as N
+    import menpo.shape.adjacency as A
+    import menpo.shape.mesh.base as B
+
+    def names(f):
+        f = getattr(f, "__func__", f)
+        return sorted(set(x for x in f.__code__.co_names if x))
+    sup = []
+    for cls in (TriMesh, ColouredTriMesh, TexturedTriMesh):
+        sup.append((cls.__name__, [(m, next((k.__name__ for k in cls.__mro__ if m in vars(k)), "?")) for m in SUPPLIED]))
+    mech = []
+    for cls in (TriMesh, ColouredTriMesh, TexturedTriMesh):
+        f = vars(cls).get("from_mask")
+        mech.append((cls.__name__ + ".from_mask", names(f) if f is not None else ["<inherited>"]))
+    for m in MECH_TRIMESH:
+        f = vars(TriMesh).get(m)
+        mech.append(("TriMesh." + m, names(f) if f is not None else ["<missing>"]))
+    for mod, fs in ((A, ("mask_adjacency_array", "reindex_adjacency_array")),
+                    (N, ("_normalize", "compute_face_normals", "compute_vertex_normals")),
+                    (B, ("subsampled_grid_triangulation", "trilist_to_adjacency_array"))):
+        for fn in fs:
+            f = getattr(mod, fn, None)
+            mech.append((fn, names(f) if f is not None else ["<missing>"]))
+    return sup, mech
+
+
+def lean_strs(xs):
+    return "[" + ", ".join('"%s"' % x for x in xs) + "]"
+
+
+def lean_tables(sup, mech):
+    s1 = ",\n   ".join('("%s", [%s])' % (c, ", ".join('("%s", "%s")' % p for p in ms)) for c, ms in sup)
+    s2 = ",\n   ".join('("%s", %s)' % (n, lean_strs(xs)) for n, xs in mech)
+    return s1, s2
+
+
+def generated(ctx):
+    rows = write_table()
+    sup, mech = mechanism_tables()
+    s1, s2 = lean_tables(sup, mech)
+    body = ",\n   ".join('("%s", "%s", %s)' % (c, q, lean_strs(w)) for c, q, w in rows)
+    text = ("/- REGENERATED by harness/c17.py from the live menpo mesh classes on every run.  Do not edit.\n"
+            "   queryWrites: for every public query of TriMesh / ColouredTriMesh / TexturedTriMesh, the instance attributes it\n"
+            "   rebinds, adds, removes or modifies in place (measured on live objects);\n"
+            "   suppliers: the class of the MRO defining each modelled method; mechanism: the names referred to by the body of\n"
+            "   every function the model transcribes. -/\n"
+            "import MenpoModel.Core.C17Mesh\n\nnamespace MenpoModel.Generated.C17\nopen MenpoModel.C17\n\n"
+            "def queryWrites : WriteTable :=\n  [%s]\n\ndef suppliers : SupplierTable :=\n  [%s]\n\n"
+            "def mechanism : NameTable :=\n  [%s]\n\nend MenpoModel.Generated.C17\n" % (body, s1, s2))
+    ctx.notes["query_write_table"] = {"rows": len(rows), "writing": {"%s.%s" % (c, q): w for c, q, w in rows if w}}
+    ctx.notes["mechanism_table"] = {"functions": len(mech), "classes": len(sup)}
+    ok = common.build_generated(ctx, {"MenpoModel/Generated/C17Writes.lean": text},
+                                ["MenpoModel.Generated.C17Writes", "MenpoModel.GenProps.C17"], len(GEN_THEOREMS))
+    if not ok and ctx.broken_obligations:
+        b = ctx.broken_obligations[-1]
+        b["obligation"] = "MenpoModel.GenProps.C17: " + ", ".join(t.split(".")[-1] for t in GEN_THEOREMS)
+        b["observed_attribute_writes_of_queries"] = {"%s.%s" % (c, q): w for c, q, w in rows if w}
+        b["expected_writes"] = ("every public query of the three classes listed in Core/C17Mesh.lean, writing nothing except "
+                                "as_pointgraph/landmarks/n_landmark_groups/tojson lazily creating _landmarks")
+        b["observed_suppliers_not_TriMesh"] = {c: [p_ for p_ in ms if p_[1] != "TriMesh"] for c, ms in sup}
+        b["observed_mechanism"] = dict(mech)
+    return ok
 
 
 # ================================================================================ shrinking
@@ -825,7 +1609,7 @@ def shrink_tris(case, still_fails):
 
 
 def run_family(ctx, fam, case, lines=None, pending=None, cid=None):
-    f = {"mask": mask_case, "geom": geom_case, "bound": bound_case}[fam]
+    f = {"mask": mask_case, "geom": geom_case, "bound": bound_case, "scale": scale_case, "history": history_case}[fam]
     n_before = len(ctx.failures)
     known_before = dict(ctx.known_seen)
     nt = f(ctx, case, lines, pending, cid)
@@ -862,7 +1646,8 @@ def _retry(gen):
     return g
 
 
-GEN = {"mask": _retry(gen_mask_case), "geom": _retry(gen_geom_case), "bound": _retry(gen_bound_case)}
+GEN = {"mask": _retry(gen_mask_case), "geom": _retry(gen_geom_case), "bound": _retry(gen_bound_case),
+       "scale": _retry(gen_scale_case), "history": _retry(gen_history_case)}
 
 
 def search(ctx):
@@ -881,7 +1666,7 @@ def search(ctx):
                 if ctx.failures:
                     return True
     for k in range(ctx.n(4000, 12000)):
-        fam = ("mask", "geom", "bound")[k % 3]
+        fam = ("mask", "geom", "bound", "history", "mask", "geom", "bound", "scale")[k % 8]
         run_family(ctx, fam, GEN[fam](rng))
         ctx.searched += 1
         if ctx.failures:
@@ -907,6 +1692,13 @@ def corpus(ctx, lines, pending):
              mask=[True, False, True, True, True, True, True])
     run_family(ctx, "mask", c, lines, pending, "cm0")
     ctx.case(("corpus-mask", 0), nontrivial=True)
+    # the triangle list of init_2d_grid against the model of subsampled_grid_triangulation
+    from menpo.shape import TriMesh
+    for (r, c) in ((2, 2), (2, 3), (3, 2), (3, 4), (4, 4), (5, 3), (2, 7), (6, 2)):
+        got = [[int(v) for v in t] for t in TriMesh.init_2d_grid((r, c)).trilist]
+        lines.append("cg%dx%d grid %d %d" % (r, c, r, c))
+        pending["cg%dx%d" % (r, c)] = (dict(family="grid", grid=[r, c], shape="grid", points=[], tris=got), got)
+        ctx.case(("corpus-grid", r, c), nontrivial=True)
     # minimised past failures (replays/corpus/C17-*.json) are re-run first on every check
     import glob
     import os
@@ -922,24 +1714,47 @@ def corpus(ctx, lines, pending):
                 ctx.case(("corpus-file", os.path.basename(path), tag), nontrivial=True)
 
 
+def prepare(ctx):
+    """regenerate the write table, build, audit.  A broken regenerated obligation is what /repo says now: it is
+    recorded (ctx.broken_obligations -> directed search -> VIOLATION), the hand-written part is still built and audited."""
+    if generated(ctx):
+        common.prepare_lean(ctx, PROP, IMPORTS + GEN_IMPORTS, THEOREMS + GEN_THEOREMS,
+                            targets=TARGETS + ["MenpoModel.GenProps.C17"])
+        # the regenerated obligations are counted once (coverage.generated_obligations); their audit is kept in the notes
+        ctx.notes["generated_obligation_axioms"] = {t: ctx.theorems.pop(t) for t in GEN_THEOREMS if t in ctx.theorems}
+    else:
+        common.prepare_lean(ctx, PROP, IMPORTS, THEOREMS, targets=TARGETS)
+
+
 def run(ctx):
-    common.prepare_lean(ctx, PROP, IMPORTS, THEOREMS)
+    prepare(ctx)
     ctx.trusted += ["contract: sqrt returns r >= 0 with r*r = x (areas, edge lengths, _normalize) — every generated case "
                     "checks the implementation's roots against exact rational squares",
                     "numpy indexing / isin / unique / add.at semantics (modelled in Core/C17Mesh.lean, exercised by the correspondence)"]
     rng = ctx.rng
     lines, pending = [], {}
     corpus(ctx, lines, pending)
-    plan = [("mask", ctx.n(3000, 30000)), ("geom", ctx.n(1000, 10000)), ("bound", ctx.n(1500, 15000))]
+    plan = [("scale", ctx.n(40, 300)), ("history", ctx.n(250, 2500)), ("mask", ctx.n(2000, 22000)), ("geom", ctx.n(1000, 8000)),
+            ("bound", ctx.n(1500, 12000))]
     for fam, cnt in plan:
         for k in range(cnt):
             case = GEN[fam](rng)
-            cid = "%s%d" % (fam[0], k)
+            cid = "%s%d" % ({"scale": "z", "history": "h"}.get(fam, fam[0]), k)
             nt = run_family(ctx, fam, case, lines, pending, cid)
-            sig = (fam, case.get("cls"), repr(case["points"]), repr(case["tris"]), repr(case.get("mask")), repr(case.get("motion")))
-            ctx.case(sig, nontrivial=bool(nt),
-                     sample={"family": fam, "class": case.get("cls"), "shape": case["shape"], "n_points": len(case["points"]),
-                             "trilist": case["tris"][:6], "mask": case.get("mask"), "motion": (case.get("motion") or {}).get("kind")})
+            sample = {"family": fam, "class": case.get("cls"), "shape": case["shape"], "n_points": len(case["points"]),
+                      "trilist": case["tris"][:6], "mask": case.get("mask"), "motion": (case.get("motion") or {}).get("kind")}
+            if fam == "scale":     # one evaluation per (mesh, scale, dtype)
+                for j, e in enumerate(case["exps"]):
+                    for dt in SCALE_DTYPES:
+                        ctx.case((fam, case.get("cls"), repr(case["points"]), repr(case["tris"]), e, dt), nontrivial=True,
+                                 sample=dict(sample, points=case["points"], scale="2^%d" % e, dtype=dt)
+                                 if (k == 0 and j == 0 and dt == "float32") else None)
+                continue
+            sig = (fam, case.get("cls"), repr(case["points"]), repr(case["tris"]), repr(case.get("mask")), repr(case.get("motion")),
+                   case.get("hseed"))
+            if fam == "history":
+                sample = dict(sample, steps=case["steps"], mask=None)
+            ctx.case(sig, nontrivial=bool(nt), sample=sample if k < {"mask": 2}.get(fam, 1) else None)
     model = common.run_driver(PROP, lines)
     for cid, (case, obs) in pending.items():
         fam = case["family"]
@@ -947,6 +1762,16 @@ def run(ctx):
             compare_mask(ctx, case, obs, model[cid])
         elif fam == "geom":
             compare_geom(ctx, case, obs, model, cid)
+        elif fam == "scale":
+            compare_scale(ctx, case, obs, model, cid)
+        elif fam == "history":
+            compare_history(ctx, case, obs, model[cid])
+        elif fam == "grid":
+            tk = model[cid].split()
+            mt = [[int(x) for x in tk[2 + 3 * j:5 + 3 * j]] for j in range(int(tk[1]))] if tk[0] == "ok" else None
+            if mt != obs:
+                ctx.mismatch("init_2d_grid", "grid %r: model triangulation %r vs TriMesh.init_2d_grid(...).trilist %r"
+                             % (case["grid"], str(mt)[:120], str(obs)[:120]), dict(family="grid", grid=case["grid"]))
         else:
             compare_bound(ctx, case, obs, model, cid)
     return ctx.finish(search)
@@ -959,8 +1784,11 @@ def replay(ctx, path):
     if fam not in GEN:
         print("replay file carries no C17 case")
         return 2
-    common.prepare_lean(ctx, PROP, IMPORTS, THEOREMS)
+    prepare(ctx)
     case = {k: v for k, v in rp.items() if k not in ("call", "minimised")}
+    if fam == "scale" and "scale_exp" in case:
+        case["exps"] = [case.pop("scale_exp")]
+        case.pop("pdtype", None)
     lines, pending = [], {}
     run_family(ctx, fam, case, lines, pending, "r0")
     ctx.case(("replay", fam, repr(case.get("tris")), repr(case.get("mask"))))
@@ -973,11 +1801,16 @@ def replay(ctx, path):
             for k_ in sorted(model):
                 if k_ == cid or k_.startswith(cid + "."):
                     print("model %s: %s" % (k_, model[k_][:300]))
-            if fam == "mask":
+            cf = c.get("family", fam)
+            if cf == "mask":
                 print("implementation:", str(obs)[:300])
                 compare_mask(ctx, c, obs, model[cid])
-            elif fam == "geom":
+            elif cf == "geom":
                 compare_geom(ctx, c, obs, model, cid)
+            elif cf == "scale":
+                compare_scale(ctx, c, obs, model, cid)
+            elif cf == "history":
+                compare_history(ctx, c, obs, model[cid])
             else:
                 print("implementation:", obs)
                 compare_bound(ctx, c, obs, model, cid)
